@@ -126,9 +126,11 @@ RunLoan(s, amt, script) ==
 
 \* loan through the vault router for initiator u: the router is the borrower, runs the payload
 \* (one call of the adversary with `script`), pays the vault the quoted amount and forwards the rest
-RunRouterLoan(s, u, amt, script) ==
-  IF ~s.tog.l \/ s.bal \prec amt \/ (amt = Zero /\ ZeroFails(s)) THEN Fail(s)
-  ELSE LET s1 == [s EXCEPT !.loans = @ ++ One, !.bal = @ -- amt, !.rb = @ ++ amt]
+\* att: coins of the vault's asset the initiator attaches to the router's FlashLoan message - they are the initiator's and
+\* come back with the remaining proceeds (the router keeps nothing and hands the vault nothing but the quoted amount)
+RunRouterLoanA(s, u, amt, script, att) ==
+  IF ~s.tog.l \/ s.bal \prec amt \/ (amt = Zero /\ ZeroFails(s)) \/ s.w[u] \prec att THEN Fail(s)
+  ELSE LET s1 == [s EXCEPT !.loans = @ ++ One, !.bal = @ -- amt, !.rb = (@ ++ amt) ++ att, !.w = [@ EXCEPT ![u] = @ -- att]]
            r == RunScript(s1, script, "router")
        IN IF ~r.ok THEN Fail(s)
           ELSE LET pay == Payback(r.s, amt) IN
@@ -137,6 +139,7 @@ RunRouterLoan(s, u, amt, script) ==
                         s2 == [r.s EXCEPT !.rb = Zero, !.bal = @ ++ pay, !.w = [@ EXCEPT ![u] = @ ++ rest]]
                         t == AfterTrade(s2, s.bal, amt, s.dueAll)
                     IN IF t.ok THEN t ELSE Fail(s)
+RunRouterLoan(s, u, amt, script) == RunRouterLoanA(s, u, amt, script, Zero)
 
 \* fees of every loan in a script tree (all complete when the transaction succeeds)
 RECURSIVE ScriptFees(_, _)
